@@ -325,6 +325,13 @@ fn check_socket(count: &u32, case: &mut Case) -> Result<(), Fail> {
         10,
         RData::A(simple_dns::rdata::A { address: 0x7f000001 }),
     ));
+    // a record whose serialisation fails (LOC refuses version != 0): asking for it must not end the loop
+    responder.add_resource(simple_dns::ResourceRecord::new(
+        Name::new_unchecked("vp-loc.local"),
+        simple_dns::CLASS::IN,
+        10,
+        RData::LOC(simple_dns::rdata::LOC { version: 1, size: 0, horizontal_precision: 0, vertical_precision: 0, latitude: 0, longitude: 0, altitude: 0 }),
+    ));
     let discovery = ServiceDiscovery::new(InstanceInformation::new("vpself".into()).with_socket_address("127.0.0.1:9".parse().unwrap()), SERVICE, 60);
     let sock = match std::net::UdpSocket::bind("0.0.0.0:0") {
         Ok(s) => s,
@@ -411,6 +418,18 @@ fn check_socket(count: &u32, case: &mut Case) -> Result<(), Fail> {
         if p.in_library() {
             return Err(Fail::new(p.signature(), format!("the one-shot resolver panicked while responses about the name it asked for were arriving: {}:{}: {}", p.file, p.line, p.msg)));
         }
+    }
+    // valid queries whose reply cannot be built
+    {
+        let mut q = Packet::new_query(0x7778);
+        q.questions.push(simple_dns::Question::new(Name::new_unchecked("vp-loc.local"), simple_dns::QTYPE::ANY, simple_dns::QCLASS::ANY, true));
+        let bytes = q.build_bytes_vec().unwrap();
+        for _ in 0..3 {
+            if sock.send_to(&bytes, "224.0.0.251:5353").is_ok() {
+                sent += 1;
+            }
+        }
+        std::thread::sleep(std::time::Duration::from_millis(50));
     }
     case.extra_evals = sent;
     case.nontrivial = true;
